@@ -82,3 +82,34 @@ Proof.
   pose proof (count_nonint (firstn (Z.to_nat ax) items)) as Hc. rewrite firstn_length in Hc.
   unfold zlen. lia.
 Qed.
+
+(* ---------- order: the kept tables are the parent's tables that survive, in the same order ------- *)
+Definition survives (items : list item) (t : table) : bool :=
+  negb (forallb is_int (map (item_at items) (taxes t))).
+
+Lemma slice_table_tid items t r : slice_table items t = Ok r ->
+  match r with
+  | inl t' => tid t' = tid t /\ survives items t = true
+  | inr t' => tid t' = tid t /\ survives items t = false
+  end.
+Proof.
+  unfold slice_table, survives.
+  destruct (map2r sel_axis (tlens t) (map (item_at items) (taxes t))); [|discriminate].
+  destruct (tkind_ t); destruct (forallb is_int (map (item_at items) (taxes t))); intros H; inversion H; subst; cbn; split; reflexivity.
+Qed.
+
+Theorem ec_getitem_order items e e' : ec_getitem items e = Ok e' ->
+  map tid (tables e') = map tid (filter (survives items) (tables e)).
+Proof.
+  unfold ec_getitem. destruct (mapr (slice_table items) (tables e)) as [l|] eqn:E; [|discriminate].
+  destruct (partition_sum l) as [kept drp] eqn:Ep. intros H; inversion H; subst; cbn [tables]. clear H.
+  revert l kept drp E Ep. induction (tables e) as [|t ts IH]; intros l kept drp E Ep; cbn [mapr] in E.
+  - inversion E; subst. cbn in Ep. inversion Ep; reflexivity.
+  - destruct (slice_table items t) as [r|] eqn:Et; [|discriminate].
+    destruct (mapr (slice_table items) ts) as [rs|] eqn:Er; [|discriminate].
+    inversion E; subst; clear E. cbn [partition_sum] in Ep.
+    destruct (partition_sum rs) as [k' d'] eqn:Ep'. pose proof (slice_table_tid _ _ _ Et) as Ht.
+    cbn [filter]. destruct r as [t'|t']; inversion Ep; subst; destruct Ht as [Hid Hs]; rewrite Hs; cbn [map].
+    + rewrite Hid. f_equal. eapply IH; [reflexivity|exact Ep'].
+    + eapply IH; [reflexivity|exact Ep'].
+Qed.
